@@ -5,8 +5,8 @@ const fDiffTxt = "pkg/netpol/diff/diff_formatter_text.go"
 func init() {
 	Register(
 		Variant{Property: "C09", Name: "txt-skips-ip-peers", File: fFmtTxt, Func: "formatText.writeConnlistOutput", Old: "\t\tconnLines[i] = formSingleP2PConn(conns[i]).string()\n", New: "\t\tif conns[i].Src().IsPeerIPType() && len(conns) > 100 {\n\t\t\tcontinue\n\t\t}\n\t\tconnLines[i] = formSingleP2PConn(conns[i]).string()\n", Rule: "C09-nodrop"},
-		Variant{Property: "C09", Name: "exposure-section-early-return", File: fFmt, Func: "getXgressExposureConnsAsSingleConnFieldsArray", Old: "\t// append xgress ip conns to this peer from the relevant map\n", New: "\tif isProtected && len(xgressExp) == 0 {\n\t\treturn xgressLines, xgressUnprotectedLine\n\t}\n", Rule: "C09-nodrop", Why: "seeded C09-a"},
-		Variant{Property: "C09", Name: "portset-string-early-returns", File: fPortSet, Func: "PortSet.String", Old: "\tres := p.Ports.String()\n\tif len(p.NamedPorts) > 0 {", New: "\tres := p.Ports.String()\n\tif len(p.NamedPorts) == 0 {\n\t\treturn res\n\t}\n\tif len(p.NamedPorts) > 0 {", Rule: "C09-nodrop", Why: "seeded C09-b shape"},
+		Variant{Property: "C09", Name: "exposure-section-early-return", File: fFmt, Func: "getXgressExposureConnsAsSingleConnFieldsArray", Old: "\t// append xgress ip conns to this peer from the relevant map\n", New: "\tif isProtected && len(xgressExp) == 0 {\n\t\treturn xgressLines, xgressUnprotectedLine\n\t}\n", Rule: "C09-ret", Why: "seeded C09-a"},
+		Variant{Property: "C09", Name: "portset-string-early-returns", File: fPortSet, Func: "PortSet.String", Old: "\tres := p.Ports.String()\n\tif len(p.NamedPorts) > 0 {", New: "\tres := p.Ports.String()\n\tif len(p.NamedPorts) == 0 {\n\t\treturn res\n\t}\n\tif len(p.NamedPorts) > 0 {", Benign: true, Why: "with no named ports the rest of the function adds nothing: the early return is behaviour-preserving (the former table of early returns fired on it)"},
 		Variant{Property: "C09", Name: "csv-rows-truncated", File: fFmtCSV, Func: "writeTableRows", Old: "\tfor _, conn := range conns {", New: "\tfor i, conn := range conns {\n\t\tif i > 10000 {\n\t\t\tbreak\n\t\t}", Rule: "C09-nodrop"},
 		Variant{Property: "C09", Name: "md-row-conditionally-empty", File: fFmtMD, Func: "writeMdLines", Old: "\t\tres[i] = getMDLine(conns[i], srcFirst)\n", New: "\t\tif conns[i].ConnString != \"\" {\n\t\t\tres[i] = getMDLine(conns[i], srcFirst)\n\t\t}\n", Rule: "C09-emit"},
 		Variant{Property: "C09", Name: "diff-added-rows-only-for-netpols", File: fDiffFmt, Func: "formDiffFieldsDataOfDiffConns", Old: "\t\tif isSrcIngress {\n\t\t\tingressRes = append(ingressRes, diffData)\n\t\t} else {", New: "\t\tif isSrcIngress {\n\t\t\t_ = ingressRes\n\t\t} else {", Rule: "C09-emit"},
